@@ -207,7 +207,7 @@ def main():
     s3 = [(5, 5, 5)] if chk.quick else [(5, 5, 5), (5, 6, 7), (4, 3, 6)]
     s2 = [(5, 6)] if chk.quick else [(5, 6), (7, 5), (6, 6)]
     sadv3 = [(5, 5, 6)] if chk.quick else [(5, 5, 6), (6, 5, 7)]
-    precisions = ["float64"] if chk.quick else ["float64", "float32"]
+    precisions = ["float64", "float32"]
     for rt in precisions:
         for sh in s3:
             chk.add(ssprk3_stretching, real_t=rt, shape=sh)
